@@ -87,6 +87,10 @@ def _events(ntasks):
         ev += [("reset", t, r) for r in RST]
         ev += [("start_task", t), ("stop_task", t)]
     ev += [("tick", dt) for dt in TICKS]
+    # operations that are refused (unknown task id) and operations on ANOTHER Progress object: the history goes
+    # on after them and every task of this Progress must be exactly as before
+    ev += [("missing", op) for op in ("advance", "update", "reset", "start_task", "stop_task")]
+    ev += [("other", "add-advance")]
     return ev
 
 
@@ -100,6 +104,28 @@ def _apply(p, clock, ids, refs, ev):
         return None
     if kind == "tick":
         clock.t += ev[1]
+        return None
+    if kind == "missing":
+        from rich.progress import TaskID
+        bad = TaskID(97)
+        try:
+            {"advance": lambda: p.advance(bad, 1), "update": lambda: p.update(bad, completed=1, total=1),
+             "reset": lambda: p.reset(bad), "start_task": lambda: p.start_task(bad),
+             "stop_task": lambda: p.stop_task(bad)}[ev[1]]()
+        except KeyError:
+            pass                    # whether and how it is refused is not C12's business; what it leaves behind is
+        return None
+    if kind == "other":
+        q = _mk_progress(clock)
+        qt = q.add_task("q", total=2, completed=1)
+        q.advance(qt, 3)
+        q.update(qt, total=9)
+        q.reset(qt, total=5)
+        q.advance(qt, 7)
+        qtask = q.tasks[0]
+        if (qtask.completed, qtask.total, qtask.finished, len(q.tasks)) != (7, 5, True, 1):
+            raise AssertionError("second Progress: task %r after add(total=2, completed=1) advance 3, total 9, reset(total=5), advance 7"
+                                 % ((qtask.completed, qtask.total, qtask.finished, len(q.tasks)),))
         return None
     t = ev[1]
     r = refs[t]
@@ -143,6 +169,8 @@ def _check(p, ids, refs, ev, touched):
     """-> list of (key, detail) after event ev"""
     out = []
     tasks = {t.id: t for t in p.tasks}
+    if len(tasks) != len(ids):
+        out.append(("seq/task-count/%s" % ev[0], "%d tasks, %d were added" % (len(tasks), len(ids))))
     for i, (tid, r) in enumerate(zip(ids, refs)):
         task = tasks[tid]
         if task.completed != r.completed:
